@@ -45,7 +45,8 @@ pub trait Conn {
     fn dig(&self) -> Value;
     fn version(&self) -> String;
     fn fresh_like(&self, ver: &str) -> Box<dyn Conn>;
-    fn restored_copy(&self) -> Box<dyn Conn>;
+    /// `handled_first`: the order in which the two parts of the export are given to the new object
+    fn restored_copy(&self, handled_first: bool) -> Box<dyn Conn>;
 }
 
 pub fn ver_of(s: &str) -> Version {
@@ -262,12 +263,18 @@ macro_rules! conn_impl {
                 n.apply_opts(&o);
                 Box::new(n)
             }
-            fn restored_copy(&self) -> Box<dyn Conn> {
+            fn restored_copy(&self, handled_first: bool) -> Box<dyn Conn> {
                 let mut n = $name::new(ver_name(self.c.get_protocol_version()));
                 let o = self.opts.clone();
                 n.apply_opts(&o);
-                n.c.restore_packets(self.c.get_stored_packets());
-                n.c.restore_qos2_publish_handled(self.c.get_qos2_publish_handled());
+                // the API prescribes no order for the two parts of the export
+                if handled_first {
+                    n.c.restore_qos2_publish_handled(self.c.get_qos2_publish_handled());
+                    n.c.restore_packets(self.c.get_stored_packets());
+                } else {
+                    n.c.restore_packets(self.c.get_stored_packets());
+                    n.c.restore_qos2_publish_handled(self.c.get_qos2_publish_handled());
+                }
                 Box::new(n)
             }
         }
